@@ -2397,7 +2397,7 @@ func phiLeaves(ph *ssa.Phi, lb map[*ssa.BasicBlock]bool) []phiLeaf {
 
 func init() {
 	register(&Rule{
-		ID: "C13.R18", Props: []string{"C13", "C14"}, Min: 2, // scanners written as a loop with local state; a scanner turned into a struct with a feed method is outside the rule
+		ID: "C13.R18", Props: []string{"C13", "C14", "C03"}, Min: 2, // scanners written as a loop with local state; a scanner turned into a struct with a feed method is outside the rule
 		Doc: "quote state of the hand-written splitters (filter arguments, :class/:style object items): (a) a quotation is closed only by the character that opened it — where one flag serves several quote characters, the edge that switches the flag off is taken under a comparison of the current character with the remembered opening character, not with constants (`'it\"s'` stays one string); (b) everything else the scanner does besides copying the character — counting bracket depth, cutting an item off — happens only while the flag is off, so a `)`, `{` or `,` inside a string literal is text",
 		Run: func(p *Prog, c *Ctx) {
 			n := 0
